@@ -11,10 +11,10 @@ VALS = {
     D: [0, 1, -1, 2, -2, 7, -7, 0.5, -0.5, 1.5, 2.5, 1e10, -1e10, 2147483647.5, 1e308],
 }
 QUICK_VALS = {
-    I: [0, 1, -1, 2, -7, 32767, -32768],
-    L: [0, 1, -2, 7, 2147483647, -2147483648, 32768],
-    S: [0, -1, 2, 0.5, 2.5, 1e10, -1e10],
-    D: [0, 1, -7, -0.5, 1.5, 1e10, 1e308],
+    I: [0, -1, 2, -7, 32767, -32768],
+    L: [0, 1, -2, 7, 2147483647, -2147483648],
+    S: [0, -1, 2, 0.5, 2.5, 1e10],
+    D: [0, 1, -7, -0.5, 1.5, 1e308],
 }
 STRS = ['', 'a', 'ab', 'b', 'A', 'a ']
 
